@@ -7,6 +7,7 @@ mod guard;
 mod qdrive;
 mod poly;
 mod quire;
+mod randsuite;
 mod sink;
 mod val;
 
@@ -48,6 +49,7 @@ fn main() {
                 "C17" => drive::suite_c17(&mut ctx),
                 "C04" => qdrive::suite_c04(&mut ctx),
                 "C18" => poly::suite_c18(&mut ctx),
+                "C19" => randsuite::suite_c19(&mut ctx),
                 "C12" => qdrive::suite_c12(&mut ctx),
                 _ => {
                     eprintln!("unknown suite {suite}");
